@@ -68,6 +68,9 @@ SolveResult minimize(auto && f, auto && x, auto && cb, const MinimizeOptions & o
   const auto t0                             = std::chrono::high_resolution_clock::now();
   auto iter                                 = 0u;
 
+  // a strategy object that was used in an earlier solve starts from its initial trust region
+  opts.strat->reset();
+
   // execute callback on initial value
   std::apply(cb, x);
 
